@@ -3,6 +3,7 @@
 //! conversions between plain `Vec<Vec<f64>>` data and the library's matrix types.
 
 pub mod builders;
+pub mod entry;
 pub use mc_core as mc;
 pub use smartcore;
 
